@@ -43,23 +43,39 @@ theorem doc_names_distinct (param : Option String) (services : List String) (h :
 
 /-! ### path variables of the template vs declared path parameters -/
 
-/-- **path variables, partial**: when the service base path holds no `{variable}`, the variables
-of the operation's path template are exactly the declared path parameters (same order, same
-multiplicity). With a variable in the base path the template has one the operation never declares. -/
-theorem path_vars_partial (m : MethodIn) (hb : '{' ∉ m.base) (hc : m.hasConfig = true) :
-    extractPathParams (route .openapi m).template = (route .openapi m).pathVars := by
-  simp only [route, openapiPath, pathVarsOf, customPath, hc, if_true, or_true]
-  exact extract_buildHTTPPath m.base m.path hb
+/-- **path variables, full** (since `fix: openapi: declare every variable of the full path
+template exactly once`): whenever the operation's path comes from a base path or an HTTP config,
+the declared path parameters are exactly the variables of the operation's template, each once. -/
+theorem path_vars_declared_once (m : MethodIn) (h : m.base ≠ [] ∨ m.hasConfig = true) :
+    (route .openapi m).pathVars = uniqueFirst (extractPathParams (route .openapi m).template) ∧
+    (route .openapi m).pathVars.Nodup ∧
+    (∀ v, v ∈ (route .openapi m).pathVars ↔ v ∈ extractPathParams (route .openapi m).template) := by
+  have hp : (route .openapi m).pathVars = uniqueFirst (extractPathParams (route .openapi m).template) := by
+    simp only [route, openapiPathVars, openapiPath]
+    have h' : m.base ≠ [] ∨ m.hasConfig = true := h
+    simp [h']
+  refine ⟨hp, ?_, ?_⟩
+  · rw [hp]; exact uniqueFirst_nodup _
+  · intro v; rw [hp]; exact mem_uniqueFirst _ v
 
-/-- a base path with a variable breaks it (known finding C18 `path_var_in_base_path_undeclared`). -/
-theorem base_path_variable_undeclared :
+/-- with a base path that holds no variable and a method path that repeats none, these are the
+method path's variables in order (what the other generators bind: `C03.placement_partial`). -/
+theorem path_vars_partial (m : MethodIn) (hb : '{' ∉ m.base) (hc : m.hasConfig = true) (hnd : (extractPathParams m.path).Nodup) :
+    (route .openapi m).pathVars = extractPathParams m.path := by
+  have := C03.openapi_path_vars_eq m hb (by simpa [pathVarsOf, hc] using hnd)
+  simpa [route, pathVarsOf, hc] using this
+
+/-- a variable in the base path is declared (entry `path_var_in_base_path_undeclared`, fixed; the
+method-path-only reading `pathVarsOf` is what the generator used before). -/
+theorem base_path_variable_declared :
     let m := C03.mk "S" "Get" "Get" "p" "/tenants/{tenant}" true "/users/{id}" 1 []
-    extractPathParams (route .openapi m).template = ["tenant".toList, "id".toList] ∧ (route .openapi m).pathVars = ["id".toList] := by decide
+    extractPathParams (route .openapi m).template = ["tenant".toList, "id".toList] ∧
+    (route .openapi m).pathVars = ["tenant".toList, "id".toList] ∧ pathVarsOf m = ["id".toList] := by decide
 
-/-- a variable used twice in a path is declared twice (known finding C18 `repeated_path_variable`). -/
-theorem repeated_variable_declared_twice :
+/-- a variable used twice in a path is declared once (entry `repeated_path_variable`, fixed). -/
+theorem repeated_variable_declared_once :
     let m := C03.mk "S" "Get" "Get" "p" "" true "/a/{id}/b/{id}" 1 []
-    (route .openapi m).pathVars = ["id".toList, "id".toList] := by decide
+    (route .openapi m).pathVars = ["id".toList] ∧ pathVarsOf m = ["id".toList, "id".toList] := by decide
 
 /-! ### JSON vs YAML renderings -/
 
